@@ -407,6 +407,15 @@ fn tl_menu(prop: &str, tier: Tier) -> Vec<(TlCfg, usize, usize)> {
                     ));
                 }
             }
+            // counters saturate at 15: needs more than 17 accesses of one key inside one sample window
+            // (two hashes whose counter indices have different parity in some row, closure of the whole window)
+            for (si, samples) in [(0usize, 20usize), (2, 40), (3, 19)] {
+                v.push((TlCfg { size: 4, samples, fpr: 0.01, seeds: seeds[si], hashes: vec![2, 5], key_ops: false }, 400_000, 200));
+            }
+            // false-positive ratios across (0,1): the doorkeeper geometry (number of probe locations) changes with it
+            for (fpr, samples) in [(0.6, 4usize), (0.9, 4), (0.99, 8), (0.3, 3), (1e-9, 2)] {
+                v.push((TlCfg { size: 2, samples, fpr, seeds: seeds[0], hashes: base_hashes.clone(), key_ops: false }, if big { 400_000 } else { 60_000 }, if big { 40 } else { 12 }));
+            }
             v.push((TlCfg { size: 16, samples: 4, fpr: 0.01, seeds: seeds[0], hashes: wide_hashes.clone(), key_ops: false }, if big { 600_000 } else { 40_000 }, if big { 12 } else { 6 }));
             v.push((TlCfg { size: 16, samples: 8, fpr: 0.01, seeds: seeds[3], hashes: wide_hashes.clone(), key_ops: false }, if big { 600_000 } else { 40_000 }, if big { 10 } else { 5 }));
             // key-based entry points (DefaultKeyHasher = RandomState: no merging across builds is assumed,
